@@ -152,6 +152,9 @@ func c17Run(c c17Case, st *vlib.Stats) string {
 		for n := range dbs {
 			want = append(want, n)
 		}
+		for i := range got {
+			got[i] = strings.ToLower(got[i]) // names are case-insensitive
+		}
 		sort.Strings(want)
 		sort.Strings(got)
 		if strings.Join(got, ",") != strings.Join(want, ",") {
